@@ -144,6 +144,7 @@ def _unpin(v):
 def _(e, c, a):
     v = _unpin(a[0])
     if isinstance(v, PyObj): return v.mir_call(e, 'Stream', 'poll_next', [a[0]] + list(a[1:]))
+    if isinstance(v, Struct) and v.name == 'MpscReceiver': return mpsc_poll_next(e, v)
     raise Unmodelled('poll_next on %r' % (v,))
 
 
@@ -153,3 +154,62 @@ def _(e, c, a):
     v = _unpin(a[0]); meth = _re.sub(r'::<.*$', '', c.rstrip()).split('::')[-1]
     if isinstance(v, PyObj): return v.mir_call(e, 'Sink', meth, [a[0]] + list(a[1:]))
     raise Unmodelled('%s on %r' % (meth, v))
+
+
+# ---------------------------------------------------------------- futures::channel::mpsc (unbounded)
+class MpscQueue:
+    def __init__(self): self.items = []; self.closed = False; self.senders = 1
+
+
+@model(r'mpsc::unbounded$|(?:^|::)unbounded$')
+def _(e, c, a):
+    q = Opaque('mpsc-queue', MpscQueue())
+    return Tuple(Struct('MpscSender', [q]), Struct('MpscReceiver', [q]))
+
+
+@model(r'UnboundedSender(<.*>)?::unbounded_send$|UnboundedSender(<.*>)?::start_send$')
+def _(e, c, a):
+    q = un(a[0]).f[0].v.data
+    if q.closed: return Err(Struct('TrySendError', [a[1]]))
+    q.items.append(a[1]); e.events.append(('mpsc-send', id(q)))
+    return Ok(mk_unit())
+
+
+@model(r'TrySendError(<.*>)?::into_inner$|SendError(<.*>)?::into_inner$')
+def _(e, c, a): return un(a[0]).f[0].v
+
+
+@model(r'UnboundedSender(<.*>)?::(close_channel|disconnect)$|UnboundedReceiver(<.*>)?::close$')
+def _(e, c, a):
+    un(a[0]).f[0].v.data.closed = True; return mk_unit()
+
+
+@model(r'UnboundedSender(<.*>)?::is_closed$')
+def _(e, c, a): return un(a[0]).f[0].v.data.closed
+
+
+@model(r'^<(futures::)?(\w+::)*UnboundedSender<.*> as Clone>::clone$')
+def _(e, c, a): return Struct('MpscSender', [un(a[0]).f[0].v])
+
+
+def mpsc_poll_next(e, rx):
+    q = rx.f[0].v.data
+    if q.items: return Enum('Poll', 0, [Some(q.items.pop(0))])
+    if q.closed: return Enum('Poll', 0, [NONE()])
+    ph = getattr(e, 'pending_hook', None)
+    if ph: ph('mpsc')
+    return Enum('Poll', 1)
+
+
+class NextFut(PyObj):
+    """StreamExt::next(&mut stream)"""
+    def __init__(self, stream): self.stream = stream
+    def m_poll(self, e, *a):
+        v = _unpin(self.stream)
+        if isinstance(v, Struct) and v.name == 'MpscReceiver': return mpsc_poll_next(e, v)
+        if isinstance(v, PyObj): return v.mir_call(e, 'Stream', 'poll_next', [self.stream, Opaque('Context')])
+        raise Unmodelled('next() on %r' % (v,))
+
+
+@model(r' as (futures::)?(\w+::)*StreamExt>::next$')
+def _(e, c, a): return NextFut(a[0])
